@@ -11,10 +11,10 @@ TITLE = "Cost is the stated loss of the model trajectory against the data"
 RULE = ("Hypothesis builds a benign ODE model (linear chains, epidemic mass-action models, saturating interactions; optional periodic "
         "forcing; in 1 of 4 cases a pygom.common_models entry - SIR_norm, SIS, SIR, SEIR, Lotka_Volterra, FitzHugh - with a hand-written "
         "abstract mirror), the inputs in a generated container/dtype form (float or integer typed time grid with a possibly fractional t0, "
-        "list / array / int-array data, list / array / tuple x0), parameters theta*, x0, t0, an observation grid of 3-12 times, an observed-state selection (one name as str, a 1-list, or "
+        "list / array / int-array data, list / array / tuple x0), parameters theta*, x0, t0, an observation grid of 2-12 times, an observed-state selection (one name as str, a 1-list, or "
         "several names in a generated order), the loss class with scalar / per-state / per-observation spread, weights (Square, Normal), an "
         "optional target_param subset, evaluation parameters theta != theta* and data = reference trajectory at theta* (optionally perturbed; "
-        "rounded to positive integers for count losses). In a quarter of the cases a second loss object (another data set: other parameters, initial state, times) is built on the same model object and evaluates its cost before each of our calls. Oracle: trajectory from an independent integrator on the abstract model's own "
+        "rounded to positive integers for count losses). In a third of the cases a twin loss object built from the very same x0 / time / data objects is evaluated at the end. In a quarter of the cases a second loss object (another data set: other parameters, initial state, times) is built on the same model object and evaluates its cost before each of our calls. Oracle: trajectory from an independent integrator on the abstract model's own "
         "right-hand side (two references must agree), selected columns in the given order, then the class formula (mpmath reference "
         "log-densities): |cost - ref| <= 1e-5(1+|ref|); residual(theta) elementwise; costIV([theta, x0']) from x0'; square loss at theta* with "
         "unperturbed data <= 1e-10*n*(1+max|y|)^2. Non-trivial = (>=2 observed states not in declaration order, or a target_param subset, or "
@@ -45,6 +45,9 @@ def strategy(tier):
         c["foreign_factors"] = [draw(st.sampled_from([0.5, 0.8, 1.3, 2.0])) for _ in c["model"]["params"]]
         # a second loss object (another data set) built on the same model object and evaluated in between
         c["companion"] = draw(st.integers(0, 3)) == 0
+        # a twin: a second loss object of the same kind built from the very same input objects (x0 array, time array, data
+        # array) on the same model; it is evaluated after everything we did to the first one
+        c["twin"] = draw(st.integers(0, 2)) == 0
         return c
     return case()
 
@@ -97,7 +100,11 @@ def oracle(case, rec):
               "weights:" + ("none" if case["weights"] is None else "scalar" if not isinstance(case["weights"], list) else
                             "matrix" if isinstance(case["weights"][0], list) else "per-state"),
               "target_param:" + ("subset" if case["target_param"] else "all"))
-    model, obj = call(key + "/construct", case, lossgen.build, case, y)
+    shared = {} if case.get("twin") else None
+    model, obj = call(key + "/construct", case, lossgen.build, case, y, None, shared)
+    twin = None
+    if shared is not None:
+        _m, twin = call(key + "/construct-twin", case, lossgen.build, case, y, model, shared)
     times = lossgen.times_of(case)
     cols = lossgen.obs_cols(case)
     free = lossgen.free_theta(case)
@@ -154,6 +161,12 @@ def oracle(case, rec):
         if not (0 <= z <= bound):
             raise PropertyViolation(key + "/zero-at-truth", "square loss at the data-generating parameters is %.3g (bound %.3g)" % (z, bound), case)
         rec.label("zero-at-truth-checked")
+    if twin is not None:
+        rec.label("twin-built-from-the-same-input-objects")
+        got_t = call(key + "/twin-cost", case, twin.cost, np.array(free))
+        if not np.isfinite(got_t) or abs(float(got_t) - ref) > 1e-5 * (1 + abs(ref)):
+            raise PropertyViolation(key + "/twin-cost", "a second loss object built from the same x0 / time / data objects gives "
+                                    "cost(theta) = %.12g after the first one was used, reference %.12g" % (got_t, ref), case)
     decl_order = [names.index(s) for s in case["obs"]]
     interesting = (p >= 2 and decl_order != sorted(decl_order)) or case["target_param"] is not None or \
         isinstance(case["spread"], list) or isinstance(case["weights"], list)
